@@ -12,3 +12,8 @@ claim("C18", "static analysis: cache-role provenance, key/value binding, admissi
   "Decides on every path of chainexchange/pubsub.go which per-instance LRU each lookup/insertion/placeholder/promotion touches (by provenance from its getter), that discovered insertions depend on a WANTED miss, that every insertion binds key = Key(chain stored), that ValidationAccept is unreachable when any admission check fails, that pruning deletes only instances below the bound in both maps, that the instance maps are touched only under the mutex, and that prefix loops run the full range (C18.R1–R6). Necessary structural conditions; LRU retention under floods is runtime behaviour and is not decided.",
   "Trusts hashicorp/golang-lru method contracts, go/types, go/ssa and checker/c18.go.",
   "DESIGN.md §4 C18")
+
+claim("C19", "static analysis: guard dominance (SCCP) + argument provenance on the sim oracle; linear-form sibling comparison certchain vs node look-back",
+  "Decides that sim validateDecision can return nil only past every check with the quorum threshold's operands taken from this instance's power table and the aggregate verified over the decision's own payload; that invalid decisions are always recorded, surfaced by Err() and acted on by Run; that consensus comparison covers every non-excluded participant; and that certchain's committee look-back equals the node's as linear forms (C19.R1–R3). Structural necessary conditions; whether simulations exercise these paths is not decided.",
+  "AS2 cryptography sound; AS5 certchain.certificates[k] is instance Initial+k; trusts go/types, go/ssa, checker/c19.go.",
+  "DESIGN.md §4 C19")
